@@ -116,11 +116,11 @@ func calmEval(r *rec) string {
 	var out opOut
 	rt.CalmReset()
 	if libSpawns {
-		if why := rt.RunCalm(func() { callOp(a, r.op, obj, nil, &out) }); why != "" {
+		if why := rt.RunCalm(func() { callOp(a, r.op, obj, nil, &out, nil) }); why != "" {
 			out.res = "abort:" + why
 		}
 	} else {
-		callOp(a, r.op, obj, nil, &out)
+		callOp(a, r.op, obj, nil, &out, nil)
 	}
 	after := ""
 	if obj != nil {
